@@ -23,8 +23,11 @@ with open("/verif/.work/props.lock", "w") as lf:
                 d["extra_props"].append(m)
         elif k == "--stream":
             s = [a.pop(0), a.pop(0), int(a.pop(0)), int(a.pop(0))]
-            if not any(x[0] == s[0] for x in d["streams"]):
+            hit = [x for x in d["streams"] if x[0] == s[0]]
+            if not hit:
                 d["streams"].append(s)
+            elif s[1] not in (hit[0][1] or "").split("+"):   # second validator for an existing stream
+                hit[0][1] = (hit[0][1] + "+" if hit[0][1] else "") + s[1]
         else:
             sys.exit("unknown option " + k)
     tmp = path + ".tmp"
